@@ -132,6 +132,29 @@ int main()
         return a->externalVariable(7) == nullptr && a->externalVariable(ModelPtr(), "c", "x") == nullptr && a->externalVariable(m, "nope", "x") == nullptr
                && !a->removeExternalVariable(7) && !a->removeExternalVariable(ModelPtr(), "c", "x") && !a->removeExternalVariable(m, "c", "nope")
                && !a->removeExternalVariable(AnalyserExternalVariablePtr()) && !a->containsExternalVariable(ModelPtr(), "c", "x") && !a->containsExternalVariable(AnalyserExternalVariablePtr()); });
+    add("analyser lookups by name with an external variable holding a null variable", [] {
+        auto a = Analyser::create(); auto m = base(); a->addExternalVariable(AnalyserExternalVariable::create(nullptr));
+        bool r = a->containsExternalVariable(m, "c", "x") || a->removeExternalVariable(m, "c", "x");
+        return !r && a->externalVariable(m, "c", "x") == nullptr; });
+    add("analyser lookups by name with an external variable that is in no component", [] {
+        auto a = Analyser::create(); a->addExternalVariable(AnalyserExternalVariable::create(Variable::create("orphan"))); a->addExternalVariable(AnalyserExternalVariable::create(widow()));
+        bool r = a->containsExternalVariable(ModelPtr(), "c", "orphan") || a->removeExternalVariable(ModelPtr(), "c", "orphan") || a->containsExternalVariable(base(), "c", "x");
+        return !r && a->externalVariable(ModelPtr(), "c", "orphan") == nullptr; });
+    add("externalVariable dependency lookups by name with parentless variables", [] {
+        auto e = AnalyserExternalVariable::create(Variable::create("x")); e->addDependency(Variable::create("w"));
+        bool r = e->containsDependency(ModelPtr(), "c", "w") || e->removeDependency(ModelPtr(), "c", "w");
+        auto m = base(); auto c = m->component(0); auto e2 = AnalyserExternalVariable::create(c->variable(0)); e2->addDependency(c->variable(1)); c->removeVariable(c->variable(1));
+        bool r2 = e2->containsDependency(ModelPtr(), "c", "y") || e2->containsDependency(m, "c", "y");
+        return !r && !r2 && e->dependency(ModelPtr(), "c", "w") == nullptr && e2->dependency(m, "c", "y") == nullptr; });
+    add("Variable::addEquivalence(v, null, mapping id, connection id)", [] {
+        auto m = base(); auto x = m->component(0)->variable(0);
+        bool r = Variable::addEquivalence(x, nullptr, "m1", "c1") || Variable::addEquivalence(nullptr, x, "m1", "c1") || Variable::addEquivalence(nullptr, nullptr, "m1", "c1");
+        return !r && x->equivalentVariableCount() == 0; });
+    add("annotator.assignId(units of the model, index past its last unit)", [] {
+        auto m = base(); auto u = Units::create("u"); u->addUnit("second"); m->addUnits(u);
+        auto an = Annotator::create(); an->setModel(m);
+        std::string id = an->assignId(u, 99); touch(an);
+        return id.empty() && an->ids().empty() && u->unitId(0).empty(); });
     add("externalVariable.addDependency(null / orphan / other model)", [] {
         auto m = base(); auto e = AnalyserExternalVariable::create(m->component(0)->variable(0));
         bool a = e->addDependency(nullptr), b = e->addDependency(Variable::create("orphan")), c = e->addDependency(base()->component(0)->variable(1));
@@ -181,6 +204,33 @@ int main()
                     j = an->assignId(Variable::create("orphan")), k = an->assignId(widow()), l = an->assignId(Units::create("u"), 5);
         touch(an);
         return a.empty() && b.empty() && c.empty() && d.empty() && e.empty() && f.empty() && g.empty() && h.empty() && i.empty() && l.empty(); });
+    add("annotator.assignId(pair of variables with one end outside the model)", [] {
+        auto m = base(); auto x = m->component(0)->variable(0);
+        auto other = base(); auto far = other->component(0)->variable(0);
+        auto orphan = Variable::create("orphan"); auto w = widow();
+        bool ok = true;
+        for (auto out : std::vector<VariablePtr> {orphan, far, w}) {
+            Variable::addEquivalence(x, out);
+            auto an = Annotator::create(); an->setModel(m);
+            for (auto type : {CellmlElementType::MAP_VARIABLES, CellmlElementType::CONNECTION}) {
+                std::string a = an->assignId(x, out, type), b = an->assignId(out, x, type);
+                touch(an);
+                ok = ok && a.empty() && b.empty() && Variable::equivalenceMappingId(x, out).empty() && Variable::equivalenceConnectionId(x, out).empty();
+            }
+            Variable::removeEquivalence(x, out);
+        }
+        return ok; });
+    add("annotator: an import source shared by several imported entities is one item", [] {
+        auto m = Model::create("m"); auto s = ImportSource::create(); s->setUrl("other.xml"); s->setId("imp");
+        auto u = Units::create("u1"); u->setImportSource(s); u->setImportReference("u"); m->addUnits(u);
+        auto c1 = Component::create("c1"); c1->setImportSource(s); c1->setImportReference("a"); m->addComponent(c1);
+        auto c2 = Component::create("c2"); c2->setImportSource(s); c2->setImportReference("b"); m->addComponent(c2);
+        auto an = Annotator::create(); an->setModel(m);
+        bool one = an->itemCount("imp") == 1 && an->duplicateIds().empty() && an->importSource("imp") == s;
+        touch(an);
+        std::string id = an->assignId(s);
+        bool moved = !id.empty() && s->id() == id && an->itemCount("imp") == 0 && an->itemCount(id) == 1;
+        return one && moved; });
     add("annotator unknown id and out-of-range index", [] {
         auto an = Annotator::create(); auto m = base(); m->setId("i"); m->component(0)->setId("i"); an->setModel(m);
         auto it = an->item("nope"); auto it2 = an->item("i", 9);
